@@ -14,16 +14,15 @@ def specOK (r : Exit × List FsOp) : Bool :=
 def WF (i : Input) : Bool :=
   i.flags != .panic && i.load != .panic && i.gen != .panic && i.writeErr.isNone && i.cleanErr.isNone
 
-/-- one finding region (F_glob_dir, below); the Clean error and the five panics found by the damaged-input runs were
+/-- no finding region is left for C18 (F_glob_dir was repaired in /repo a3d970c); the Clean error and the five panics found by the damaged-input runs were
     repaired in /repo (63484d4, 58408b2, a51cc44, 329275c, ffe72d1, 83db8cb); their inputs are ordinary cases now -/
 inductive Region where
   | WF
-  | F_glob_dir    -- Clean's glob pattern holds the unescaped [dir] argument: a malformed pattern makes the run fail after the writes
   deriving DecidableEq, Repr
 
 def Region.str : Region → String
-  | .WF => "WF" | .F_glob_dir => "F_glob_dir"
+  | .WF => "WF"
 
-def region (d : Damage) : Region := if d = .cleanGlobBad then .F_glob_dir else .WF
+def region (_ : Damage) : Region := .WF
 
 end ShootVerif.Phases
